@@ -78,18 +78,67 @@ Proof.
   - reflexivity.
 Qed.
 
+(* Other data present on one side only: the two variable blocks differ in
+   length by 6, so the algorithm name of one side would have to coincide with
+   itself shifted by six octets - but its first octet (the label length 9 or
+   11) differs from its seventh ('s' of "hmac-sha..."). *)
+Lemma shift6_impossible (A X X' t t' R R' : bytes) :
+  length t = 6%nat -> length R = 12%nat -> length (t' ++ R') = 12%nat ->
+  (6 < length A)%nat -> nth 0 A 0 <> nth 6 A 0 ->
+  X ++ A ++ t ++ R = X' ++ A ++ t' ++ R' -> False.
+Proof.
+  intros Lt LR LR' LA Hne H.
+  replace (X ++ A ++ t ++ R) with ((X ++ A ++ t) ++ R) in H by (rewrite <- !app_assoc; reflexivity).
+  replace (X' ++ A ++ t' ++ R') with ((X' ++ A) ++ (t' ++ R')) in H by (rewrite <- !app_assoc; reflexivity).
+  apply app_eq_len_r in H; [|lia]. destruct H as [H _].
+  assert (H2 : (X ++ firstn 6 A) ++ (skipn 6 A ++ t) = X' ++ A).
+  { rewrite <- H. rewrite <- !app_assoc. f_equal. rewrite (app_assoc (firstn 6 A)), firstn_skipn. reflexivity. }
+  clear H. rename H2 into H.
+  apply app_eq_len_r in H; [|rewrite app_length, skipn_length; lia]. destruct H as [_ H].
+  assert (L6 : length (firstn 6 A) = 6%nat) by (rewrite firstn_length; lia).
+  assert (E0 : nth 0 A 0 = nth 0 (skipn 6 A ++ t) 0) by (rewrite H; reflexivity).
+  assert (E6 : nth 6 A 0 = nth 0 (skipn 6 A) 0).
+  { rewrite <- (firstn_skipn 6 A) at 1. rewrite app_nth2 by (rewrite L6; lia). rewrite L6. reflexivity. }
+  assert (E1 : nth 0 (skipn 6 A ++ t) 0 = nth 0 (skipn 6 A) 0) by (apply app_nth1; rewrite skipn_length; lia).
+  apply Hne. congruence.
+Qed.
+
+Lemma other_presence_determined k msg msg' v v' :
+  msg ++ vars_sign k v = msg' ++ vars_sign k v' -> (v_other v = None <-> v_other v' = None).
+Proof.
+  assert (G : forall m1 m2 v1 v2 o, v_other v1 = Some o -> v_other v2 = None ->
+              m1 ++ vars_sign k v1 = m2 ++ vars_sign k v2 -> False).
+  { intros m1 m2 v1 v2 o H1 H2 H. unfold vars_sign in H. rewrite sign_order_eq in H.
+    cbn [map concat field_bytes] in H. rewrite H1, H2, !app_nil_r in H.
+    eapply (shift6_impossible (alg_wire (k_alg k))
+              (m1 ++ wire_abs (canon (k_name k)) ++ be16 CLASS_ANY ++ be32 0)
+              (m2 ++ wire_abs (canon (k_name k)) ++ be16 CLASS_ANY ++ be32 0)
+              (time48_octets (v_time v1)) (time48_octets (v_time v2))
+              (be16 (v_fudge v1) ++ be16 (v_error v1) ++ be16 other_len_fed ++ time48_octets o)
+              (be16 (v_fudge v2) ++ be16 (v_error v2) ++ be16 0)).
+    - apply time48_octets_length.
+    - rewrite !app_length, time48_octets_length. reflexivity.
+    - rewrite !app_length, time48_octets_length. reflexivity.
+    - destruct (k_alg k); cbn; lia.
+    - destruct (k_alg k); cbn; lia.
+    - repeat rewrite <- app_assoc in H. repeat rewrite <- app_assoc. exact H. }
+  intros H. destruct (v_other v) as [o|] eqn:E1, (v_other v') as [o'|] eqn:E2; split; intros X; try discriminate; try reflexivity; exfalso.
+  - eapply (G msg msg' v v'); eauto.
+  - eapply (G msg' msg v' v); eauto.
+Qed.
+
 (* full variables (request, response, first message of a sequence) *)
 Theorem digest_injective k pm pm' msg msg' v v' :
   len pm < 65536 -> len pm' < 65536 -> wf_vars v -> wf_vars v' ->
-  (v_other v = None <-> v_other v' = None) ->
   digest_full k (apply_signature [] pm) msg v = digest_full k (apply_signature [] pm') msg' v' ->
   pm = pm' /\ msg = msg' /\ v = v'.
 Proof.
-  intros Hp Hp' Hv Hv' Ho H. unfold digest_full, apply_signature in H. cbn [app] in H.
+  intros Hp Hp' Hv Hv' H. unfold digest_full, apply_signature in H. cbn [app] in H.
   rewrite !N.mod_small in H by assumption. rewrite <- !app_assoc in H.
   apply app_eq_len_l in H; [|reflexivity]. destruct H as [Hl H].
   apply be16_inj in Hl; try assumption.
   apply app_eq_len_l in H; [|unfold len in Hl; lia]. destruct H as [-> H].
+  pose proof (other_presence_determined _ _ _ _ _ H) as Ho.
   apply app_eq_len_r in H.
   - destruct H as [-> H]. apply vars_sign_inj in H; auto.
   - rewrite !vars_sign_length. destruct (v_other v), (v_other v'); try reflexivity.
